@@ -176,15 +176,29 @@ func (p Pattern) RegexString() string {
 	return s + "$"
 }
 
-var reCache sync.Map
+var (
+	reMu    sync.Mutex
+	reCache = map[string]*regexp.Regexp{}
+	reBytes int
+)
 
-// MustRe compiles with a cache.
+// MustRe compiles with a cache.  The cache is bounded (patterns with long random literals would otherwise fill the
+// memory of a long campaign): when it holds more than 16 MB of pattern text or 20000 entries it is dropped.
 func MustRe(s string) *regexp.Regexp {
-	if r, ok := reCache.Load(s); ok {
-		return r.(*regexp.Regexp)
+	reMu.Lock()
+	r, ok := reCache[s]
+	reMu.Unlock()
+	if ok {
+		return r
 	}
-	r := regexp.MustCompile(s)
-	reCache.Store(s, r)
+	r = regexp.MustCompile(s)
+	reMu.Lock()
+	if reBytes > 16<<20 || len(reCache) > 20000 {
+		reCache, reBytes = map[string]*regexp.Regexp{}, 0
+	}
+	reCache[s] = r
+	reBytes += len(s) * 40 // a compiled program is far larger than its source
+	reMu.Unlock()
 	return r
 }
 
